@@ -11,3 +11,5 @@ import GSV.Props.KernelKrige
 import GSV.Props.KernelVario
 import GSV.RealInst
 import GSV.Props.C08
+import GSV.Props.C05
+import GSV.Props.C06
